@@ -90,6 +90,7 @@ class NFA:
     approx: bool = False          # an assertion was dropped: language is a superset of the true one
     approx_notes: list[str] = dataclasses.field(default_factory=list)
     source: str = ''
+    trail: Optional[tuple[bool, tuple[Interval, ...]]] = None   # trailing look-ahead on the next character: (positive?, set)
 
     def new(self) -> int:
         self.n += 1
@@ -222,11 +223,64 @@ def _build(nfa: NFA, items: object, flags: int, s: int) -> int:
     return cur
 
 
+def _single_char_set(items: object, flags: int) -> Optional[tuple[Interval, ...]]:
+    """the character set of a pattern that matches exactly one character (a literal, a class, `.`, or alternatives of those)"""
+    seq = list(items)  # type: ignore[call-overload]
+    if len(seq) != 1:
+        return None
+    op, av = seq[0]
+    name = str(op)
+    if name in ('LITERAL', 'NOT_LITERAL', 'ANY', 'IN'):
+        tmp = NFA()
+        s0 = tmp.new()
+        try:
+            e = _build(tmp, [(op, av)], flags, s0)
+        except Unsupported:
+            return None
+        iv: list[Interval] = []
+        for cs, t in tmp.trans.get(s0, ()):
+            if t == e:
+                iv.extend(cs)
+        return _norm_intervals(iv)
+    if name == 'BRANCH':
+        out: list[Interval] = []
+        for alt in av[1]:
+            one = _single_char_set(alt, flags)
+            if one is None:
+                return None
+            out.extend(one)
+        return _norm_intervals(out)
+    if name == 'SUBPATTERN':
+        return _single_char_set(av[3], flags)
+    return None
+
+
 def from_regex(pattern: str, flags: int = 0) -> NFA:
     parsed = sre_parse.parse(pattern, flags)
     nfa = NFA(source=pattern)
     nfa.start = nfa.new()
-    nfa.accept = _build(nfa, parsed, parsed.state.flags | flags, nfa.start)
+    items = list(parsed)
+    fl = parsed.state.flags | flags
+    # a trailing one-character look-ahead constrains what may FOLLOW the lexeme, not the lexeme: kept exactly as `trail`
+    if items and str(items[-1][0]) in ('ASSERT', 'ASSERT_NOT') and items[-1][1][0] > 0:
+        cs = _single_char_set(items[-1][1][1], fl)
+        if cs is not None:
+            nfa.trail = (str(items[-1][0]) == 'ASSERT', cs)
+            items = items[:-1]
+    word_end = bool(items) and str(items[-1][0]) == 'AT' and str(items[-1][1]) == 'AT_BOUNDARY'
+    if word_end:
+        items = items[:-1]
+    nfa.accept = _build(nfa, items, fl, nfa.start)
+    if word_end:
+        # a trailing \b after a lexeme that always ends in a word character == "the next character is not a word character"
+        word = _category(sre_c.CATEGORY_WORD)
+        back = {s for s in range(nfa.n) if nfa.accept in nfa.closure([s])}
+        last = [cs for lst in nfa.trans.values() for cs, t in lst if t in back]
+        if last and all(any(lo <= a and b <= hi for lo, hi in word) for cs in last for a, b in cs):
+            nfa.trail = (False, word)
+        else:
+            nfa.approx = True
+            nfa.approx_notes.append('trailing \\b after a lexeme that may end in a non-word character')
     return nfa
 
 
@@ -260,6 +314,49 @@ def find_difference(a: NFA, b: NFA, limit: int = 200000) -> Optional[str]:
             if (na, nb) not in seen:
                 seen.add((na, nb))
                 todo.append((na, nb, word + chr(_pretty(cp, bounds))))
+    return None
+
+
+def prefix_conflict(a: NFA, b: NFA, limit: int = 200000) -> Optional[str]:
+    """a word of L(b) that has a PROPER prefix in L(a) after which a's trailing look-ahead (if any) holds -- the word an ordered-choice
+    lexer that tries `a` first cuts short -- or None.  Both automata must be exact."""
+    if a.approx or b.approx:
+        raise Unsupported('prefix_conflict needs exact automata')
+    extra: set[int] = set()
+    if a.trail is not None:
+        for lo, hi in a.trail[1]:
+            extra |= {lo, hi + 1}
+    bounds = sorted(a.boundaries() | b.boundaries() | extra)
+    letters = [bounds[i] for i in range(len(bounds) - 1)]
+    sa = a.closure([a.start])
+    sb = b.closure([b.start])
+    empty: frozenset[int] = frozenset()
+    seen = {(sa, sb, False)}
+    todo: list[tuple[frozenset[int], frozenset[int], bool, str]] = [(sa, sb, False, '')]
+    count = 0
+    while todo:
+        ca, cb, hit, word = todo.pop(0)
+        if hit and b.accept in cb:
+            return word
+        count += 1
+        if count > limit:
+            raise Unsupported('state space limit reached')
+        for cp in letters:
+            nb = b.step(cb, cp)
+            if not nb:
+                continue
+            nh = hit
+            if not nh and a.accept in ca:
+                if a.trail is None:
+                    nh = True
+                else:
+                    inside = any(lo <= cp <= hi for lo, hi in a.trail[1])
+                    nh = inside if a.trail[0] else not inside
+            na = empty if nh else a.step(ca, cp)
+            key = (na, nb, nh)
+            if key not in seen:
+                seen.add(key)
+                todo.append((na, nb, nh, word + chr(_pretty(cp, bounds))))
     return None
 
 
